@@ -138,7 +138,7 @@ def isolated(fn, *args, wall_cap=None):
 def run_one(prop, seed, index, tier, options):
     """generate + execute one run, each from a pristine process image.
     returns (spec, result)"""
-    cap = options.get('run_wall_cap', 120)
+    cap = options.get('run_wall_cap', 300)
     if getattr(prop, 'isolate', True):
         try:
             spec = isolated(prop.generate, seed, index, tier, options, wall_cap=cap)
@@ -164,7 +164,7 @@ def _regen_and_execute(prop, spec):
     return prop.execute(prop.generate(seed, index, tier, options))
 
 
-def execute_spec(prop, spec, cap=120, executor_mode=None):
+def execute_spec(prop, spec, cap=300, executor_mode=None):
     if spec.get('regenerate'):
         try:
             return isolated(_regen_and_execute, prop, spec, wall_cap=cap)
@@ -239,7 +239,7 @@ def run_search(prop_name, seed, tier, n_runs, jobs, options, wall_budget=None):
     chunk = max(1, min(options.get('chunk', 8), (n_runs + jobs - 1) // jobs))
     batches = [list(range(i, min(i + chunk, n_runs))) for i in range(0, n_runs, chunk)]
     t0 = time.time()
-    per_future_timeout = options.get('batch_wall_cap', 600)
+    per_future_timeout = options.get('batch_wall_cap', 1500)
     with concurrent.futures.ProcessPoolExecutor(max_workers=jobs, mp_context=ctx) as ex:
         pending = {}
         it = iter(batches)
